@@ -3,16 +3,18 @@
    bytecode/src/variables/ops*.rs, primitive.rs equals/negate, arm by arm), specification: Num/NumSpec.v.
 
    Full statement (property C05), for the code as fixed by fixes/num-overflow-panics-in-every-build.diff,
-   fixes/num-byte-zero-divisor.diff and fixes/num-rem-min-by-minus-one.diff ([Fixed]; an integer overflow is a
-   Rust panic in every build, a zero divisor an error: both are failures for C05):
+   fixes/num-byte-zero-divisor.diff, fixes/num-rem-min-by-minus-one.diff and fixes/num-shl-lost-bits.diff
+   ([Fixed]; an integer overflow of + - * is a Rust panic in every build, a zero divisor and a left shift that
+   loses a bit an error: all are failures for C05):
      for every operator, every pair of numeric kinds and ALL operand values that fit their kinds,
      the implementation yields exactly the value the specification defines -- of the kind given by the
      promotion table -- and stops with a failure (Err or Panic, never a value) exactly when the
-     specification is Undefined (result not representable, shift amount out of range, zero divisor).
+     specification is Undefined (result not representable -- for `x << n` too: its exact value is x * 2^n --
+     shift amount out of range, zero divisor).
    It is proved at full strength below (C05_binop_exact, C05_binop_kind, C05_neg_exact, C05_not_exact).
    The float kind is specified by Flocq's IEEE-754 binary64 operations (round to nearest even); `%` on
-   floats by F_rem (NumDefs.v).  The ORIGINAL code is characterised by C05_orig_exact_except with the three
-   known classes K1-K3 and one refutation witness per class. *)
+   floats by F_rem (NumDefs.v).  The ORIGINAL code is characterised by C05_orig_exact_except with the four
+   known classes K1-K4 and one refutation witness per class. *)
 From Coq Require Import Reals.
 From Flocq Require Import Core.Core.
 From MS Require Import Num.NumImpl Num.NumSpec Num.NumProofs Num.NumFloat.
@@ -45,9 +47,11 @@ Proof. exact not_exact. Qed.
 (* the original code: exact outside the known classes (m = Trap: debug build, m = Wrap: release build) *)
 Check binop_orig : forall m op a b, wf a -> wf b -> is_num a -> is_num b ->
   ~ float_by_byte_zero op a b -> ~ rem_min_by_m1 op a b -> (m = Wrap -> ~ overflows op a b) ->
+  ~ shl_loses_bits op a b ->
   meets (spec_binop op a b) (binop_eval (Orig m) op a b).
 Theorem C05_orig_exact_except : forall m op a b, wf a -> wf b -> is_num a -> is_num b ->
   ~ float_by_byte_zero op a b -> ~ rem_min_by_m1 op a b -> (m = Wrap -> ~ overflows op a b) ->
+  ~ shl_loses_bits op a b ->
   meets (spec_binop op a b) (binop_eval (Orig m) op a b).
 Proof. exact binop_orig. Qed.
 
@@ -63,6 +67,11 @@ Check orig_float_by_byte_zero_refuted : forall m, exists op a b,
 Check orig_rem_min_by_m1_refuted : forall m, exists op a b,
   wf a /\ wf b /\ is_num a /\ is_num b /\ rem_min_by_m1 op a b /\
   spec_binop op a b = Exact (Int 0) /\ binop_eval (Orig m) op a b = Panic.
+(* `3 << 31`: the exact value 6442450944 is not an int; the original code yields the truncated pattern *)
+Check orig_shl_refuted : forall m, exists op a b,
+  wf a /\ wf b /\ is_num a /\ is_num b /\ shl_loses_bits op a b /\
+  spec_binop op a b = Undefined /\ binop_eval (Orig m) op a b = Ok (Int (-2147483648)) /\
+  binop_eval Fixed op a b = Err.
 Check orig_neg_wrap_refuted :
   wf (Int (-2147483648)) /\ spec_neg (Int (-2147483648)) = Undefined /\
   negate (Orig Wrap) (Int (-2147483648)) = Ok (Int (-2147483648)).
@@ -111,9 +120,17 @@ Example C05_float_rem :
   | _ => False
   end.
 Proof. vm_compute. reflexivity. Qed.
-Example C05_shift_range : binop_eval Fixed (Shift Shl) (Int 1) (Int 31) = Ok (Int (-2147483648))
+Example C05_shift_range : binop_eval Fixed (Shift Shl) (Int 1) (Int 30) = Ok (Int 1073741824)
+                          /\ binop_eval Fixed (Shift Shl) (Int (-1)) (Int 31) = Ok (Int (-2147483648))
                           /\ binop_eval Fixed (Shift Shl) (Int 1) (Int 32) = Err
                           /\ spec_binop (Shift Shl) (Int 1) (Int 32) = Undefined.
+Proof. vm_compute. repeat split. Qed.
+(* a left shift that loses a bit fails: 1 << 31 is 2147483648, not an int; 255 << 1 is 510, not a byte *)
+Example C05_shl_overflow_fails : spec_binop (Shift Shl) (Int 1) (Int 31) = Undefined
+                                 /\ binop_eval Fixed (Shift Shl) (Int 1) (Int 31) = Err
+                                 /\ binop_eval Fixed (Shift Shl) (Byte 255) (Byte 1) = Err
+                                 /\ binop_eval Fixed (Shift Shl) (Byte 255) (Int 1) = Ok (Int 510)
+                                 /\ binop_eval Fixed (Shift Shr) (Int (-5)) (Byte 1) = Ok (Int (-3)).
 Proof. vm_compute. repeat split. Qed.
 
 (* Print Assumptions last (the driver reads the axiom lists that follow each `Axioms:` header): the Flocq /
